@@ -33,11 +33,16 @@ for p in sorted(byp):
 out.append('')
 out.append('### 9.5 Seeded changes and which checks catch them\n')
 out.append('Each change was written by a fresh sub-agent that saw only the property record and a private worktree, and was then confirmed by `tools/seedrun.sh` in a scratch worktree of /repo HEAD (demonstration passes on the clean tree and fails with the patch; `go build ./...`; stable_pass tests of the touched packages and their dependants still pass) before the check was run against it through `go build -overlay` (equivalent to applying it to /repo, but safe while other runs use /repo). `seeded/<id>/` holds patch.diff, the demonstration, the sub-agent\'s notes and meta.json.\n')
+def remark(m):
+    parts=[m.get('note','')]
+    if m.get('first_run'): parts.append('first run: '+m['first_run'])
+    if m.get('strengthening'): parts.append('then: '+m['strengthening'])
+    return '; '.join(x for x in parts if x)
 out.append('| seeded | breaks | needs, in order to manifest | caught by | remark |')
 out.append('|---|---|---|---|---|')
 for f in sorted(glob.glob(f'{root}/seeded/*/meta.json')):
     m=json.load(open(f)); name=os.path.basename(os.path.dirname(f))
-    out.append(f"| {name} | {m.get('breaks_property','')} | {m.get('needs_to_manifest','').replace('|','/')} | {', '.join(m.get('detected_by',[])) or '**not caught**'} | {m.get('note','').replace('|','/')} |")
+    out.append(f"| {name} | {m.get('breaks_property','')} | {m.get('needs_to_manifest','').replace('|','/')} | {', '.join(m.get('detected_by',[])) or '**not caught**'} | {remark(m).replace('|','/')} |")
 out.append('')
 s=open(f'{root}/DESIGN.md').read()
 b,e='<!-- BEGIN GENERATED -->','<!-- END GENERATED -->'
